@@ -1,4 +1,4 @@
-import SimuVerif.Model.TissueD2
+import SimuVerif.Model.DaughtersOkCheck
 import SimuVerif.Lemmas.C14_TissueInvariants
 import SimuVerif.Lemmas.RemeshPassChecks
 import SimuVerif.Lemmas.Population
@@ -23,24 +23,6 @@ variable {R : Type} [Add R] [Sub R] [Mul R] [Div R] [Neg R] [Lit R] [LT R] [LE R
   [DecidableEq R] [DEq R]
 
 /-! ### one `divide_cell` -/
-
-/-- the run-time condition of one division: both meshes built by `create_daughter_cells` pass the Boolean test of the mesh
-    invariants (`true` when the division fails before: then there are no daughters) -/
-def daughtersOkRebased (fn : Fn R) (c : CellTR R) (inp : DivIn R) : Bool :=
-  match cutAndTriangulate fn c.mesh (centroidM c) inp.axis inp.d with
-  | .error _ => true
-  | .ok mf =>
-    match Division.daughterFaces mf.1 mf.2 (centroidM c) inp.axis with
-    | .error _ => true
-    | .ok TT =>
-      match initDaughterCell fn c mf.1.nodes TT.1, initDaughterCell fn c mf.1.nodes TT.2 with
-      | .ok d1, .ok d2 => cellOkB d1.mesh && cellOkB d2.mesh
-      | _, _ => true
-
-def daughtersOkB (fn : Fn R) (c : CellTR R) (inp : DivIn R) : Bool :=
-  match rebaseCell c with
-  | .error _ => true
-  | .ok c' => daughtersOkRebased fn c' inp
 
 theorem liftR_ok {α : Type} {x : Except Remesh.Err α} {a : α} (h : liftR x = .ok a) : x = .ok a := by
   unfold liftR at h
@@ -113,19 +95,6 @@ theorem divideCellM_cellOk' {fn : Fn R} {K : ConstsTR R} {c d1 d2 : CellTR R} {i
       exact divideRebased_cellOk hdr hd
 
 /-! ### the division round -/
-
-/-- every ready cell's division satisfies the per-division condition -/
-def insDaughtersGo (fn : Fn R) : List (CellTR R) → List (DivIn R) → Bool
-  | [], _ => true
-  | c :: cs, ins =>
-    if readyD c then
-      match ins with
-      | [] => true
-      | inp :: rest => daughtersOkB fn c inp && insDaughtersGo fn cs rest
-    else insDaughtersGo fn cs ins
-
-def insDaughtersOk (fn : Fn R) (b : StateTR R) (ins : List (DivIn R)) : Bool :=
-  if dividesNow b.iter then insDaughtersGo fn b.cells ins else true
 
 theorem eventsGo_nil (fn : Fn R) (K : ConstsTR R) : ∀ (i : Nat) (cells : List (CellTR R)), eventsGo fn K i cells [] = []
   | _, [] => by unfold eventsGo; rfl
@@ -233,21 +202,6 @@ theorem restD_allOk {fn : Fn R} {fx : FX R} {K : ConstsTR R} {s2 s' : StateTP R}
     rw [hr] at h
     cases h
     exact removalP_allOk _ (physStage_allOk fn fx K (refineStageT_allOk hr hc))
-
-/-- the per-division condition of one iteration: for every division executed in it, both meshes `create_daughter_cells` builds
-    pass `cellOkB` -/
-def divCondD2 (fn : Fn R) (K : ConstsTR R) (s : StateTP R) (ins : List (DivIn R)) : Bool :=
-  match saveMeshT fn K s.base with
-  | .error _ => true
-  | .ok b1 => insDaughtersOk fn b1 ins
-
-/-- … of every iteration of a run -/
-def divCondRunD2 (fn : Fn R) (fx : FX R) (K : ConstsTR R) : List (List (DivIn R)) → StateTP R → Bool
-  | [], _ => true
-  | ins :: rest, s => divCondD2 fn K s ins &&
-    match tissueIterationD2 fn fx K s ins with
-    | .error _ => true
-    | .ok s' => divCondRunD2 fn fx K rest s'
 
 /-- **one iteration with division round and removal keeps the mesh invariants of every cell of the list** -/
 theorem tissueIterationD2_allOk {fn : Fn R} {fx : FX R} {K : ConstsTR R} {s s' : StateTP R} {ins : List (DivIn R)}
